@@ -1,3 +1,4 @@
 pub mod cli;
 pub mod explore;
+pub mod faults;
 pub mod sweep;
